@@ -104,6 +104,9 @@ def random_history(rng, k, reuse=None):
             members = [101000 + rng.choice([2, 3])] + members[:1] + members[1:]
         if d_defs and rng.random() < 0.4:
             members.append(d_defs[-1]['id'])
+            if rng.random() < 0.5:
+                # the SAME sub-sequence a second time in one member list (every occurrence is a member)
+                members += [rng.choice(b_defs)['id'], d_defs[-1]['id']]
         d_defs.append(dict(id=sid, name='NEW SEQUENCE %d' % sid, members=members))
     by_id = {e['id']: e for e in b_defs}
     seqs = {s['id']: s for s in d_defs}
@@ -132,8 +135,10 @@ def random_history(rng, k, reuse=None):
                     return sid
         inner_target = rng.choice(list(by_id) + [q for q in seqs if q not in reponly])
         level = new_sid()
-        seqs[level] = dict(id=level, name='NESTED LEVEL %d' % level,
-                           members=[rng.choice(list(by_id)), rng.choice(list(reponly)), inner_target] + ([rng.choice(list(by_id))] if rng.random() < 0.5 else []))
+        lm = [rng.choice(list(by_id)), rng.choice(list(reponly)), inner_target] + ([rng.choice(list(by_id))] if rng.random() < 0.5 else [])
+        if rng.random() < 0.5:
+            lm += [lm[1], rng.choice(list(by_id))]           # the same replication-only sequence twice in one member list
+        seqs[level] = dict(id=level, name='NESTED LEVEL %d' % level, members=lm)
         d_defs.append(seqs[level])
         outer = new_sid()
         seqs[outer] = dict(id=outer, name='NESTED OUTER %d' % outer,
